@@ -1115,6 +1115,126 @@ def sink_common_append(fn: ast.AST) -> int:
     return count[0]
 
 
+def desugar(fn: ast.AST) -> int:
+    """`match` over literal patterns as the if/elif chain it abbreviates; `if (m := f(x)) ...:` as `m = f(x)` followed by the test."""
+    count = [0]
+
+    def pattern_test(subject: ast.AST, pat) -> Optional[ast.AST]:
+        """Test expression for a value / singleton / or-of-those pattern; ast.Constant(True) for the wildcard; None if anything is captured."""
+        if isinstance(pat, ast.MatchValue) and isinstance(pat.value, (ast.Constant, ast.Attribute, ast.UnaryOp)):
+            return ast.Compare(left=copy.deepcopy(subject), ops=[ast.Eq()], comparators=[copy.deepcopy(pat.value)])
+        if isinstance(pat, ast.MatchSingleton):
+            return ast.Compare(left=copy.deepcopy(subject), ops=[ast.Is()], comparators=[ast.Constant(value=pat.value)])
+        if isinstance(pat, ast.MatchOr):
+            parts = [pattern_test(subject, p2) for p2 in pat.patterns]
+            if all(isinstance(p2, ast.MatchValue) and isinstance(p2.value, ast.Constant) for p2 in pat.patterns):
+                return ast.Compare(left=copy.deepcopy(subject), ops=[ast.In()], comparators=[ast.Tuple(elts=[copy.deepcopy(p2.value) for p2 in pat.patterns], ctx=ast.Load())])
+            if all(x is not None for x in parts):
+                return ast.BoolOp(op=ast.Or(), values=parts)
+            return None
+        if isinstance(pat, ast.MatchAs) and pat.pattern is None and pat.name is None:
+            return ast.Constant(value=True)
+        return None
+
+    def match_to_if(st: ast.Match) -> Optional[ast.stmt]:
+        subject = st.subject
+        pre = []
+        if not isinstance(subject, (ast.Name, ast.Attribute)):
+            # the subject is evaluated once: bind it first
+            tmp = f"subject__match{getattr(st, 'lineno', 0)}"
+            pre = [ast.Assign(targets=[ast.Name(id=tmp, ctx=ast.Store())], value=subject)]
+            subject = ast.Name(id=tmp, ctx=ast.Load())
+        arms = []
+        for c in st.cases:
+            t = pattern_test(subject, c.pattern)
+            if t is None:
+                return None
+            if c.guard is not None:
+                t = c.guard if (isinstance(t, ast.Constant) and t.value is True) else ast.BoolOp(op=ast.And(), values=[t, c.guard])
+            arms.append((t, c.body))
+        node = None
+        for t, body in reversed(arms):
+            if isinstance(t, ast.Constant) and t.value is True:
+                node = list(body)
+            else:
+                node = [ast.If(test=t, body=list(body), orelse=node or [])]
+        if not node:
+            return None
+        return pre + node
+
+    def hoist_walrus(st: ast.If):
+        """Named expressions evaluated unconditionally at the start of an if-test."""
+        pre = []
+
+        def first(e):
+            if isinstance(e, ast.NamedExpr) and isinstance(e.target, ast.Name):
+                pre.append(ast.Assign(targets=[ast.Name(id=e.target.id, ctx=ast.Store())], value=e.value))
+                return ast.Name(id=e.target.id, ctx=ast.Load())
+            if isinstance(e, ast.BoolOp):
+                e.values[0] = first(e.values[0])
+            elif isinstance(e, ast.UnaryOp):
+                e.operand = first(e.operand)
+            elif isinstance(e, ast.Compare):
+                e.left = first(e.left)
+            elif isinstance(e, ast.Call) and isinstance(e.func, ast.Attribute):
+                e.func.value = first(e.func.value)
+            return e
+        st.test = first(st.test)
+        return pre
+
+    def block(stmts):
+        out = []
+        for st in stmts:
+            if isinstance(st, (ast.FunctionDef, ast.AsyncFunctionDef, ast.ClassDef)):
+                out.append(st)
+                continue
+            if isinstance(st, ast.Match):
+                r = match_to_if(st)
+                if r is not None:
+                    count[0] += 1
+                    for x in r:
+                        ast.copy_location(x, st)
+                    out.extend(block(r))
+                    continue
+                for c in st.cases:
+                    c.body = block(c.body)
+                out.append(st)
+                continue
+            for fld in ("body", "orelse", "finalbody"):
+                if getattr(st, fld, None):
+                    setattr(st, fld, block(getattr(st, fld)))
+            for h in getattr(st, "handlers", []) or []:
+                h.body = block(h.body)
+            if isinstance(st, ast.With) and len(st.items) == 1 and st.items[0].optional_vars is None and isinstance(st.items[0].context_expr, ast.Call):
+                c = st.items[0].context_expr
+                if ((isinstance(c.func, ast.Name) and c.func.id == "suppress") or (isinstance(c.func, ast.Attribute) and c.func.attr == "suppress")) and c.args and not c.keywords:
+                    # with suppress(E): body   ==   try: body  except E: pass
+                    typ = c.args[0] if len(c.args) == 1 else ast.Tuple(elts=list(c.args), ctx=ast.Load())
+                    st = ast.copy_location(ast.Try(body=st.body, handlers=[ast.ExceptHandler(type=typ, name=None, body=[ast.Pass()])], orelse=[], finalbody=[]), st)
+                    count[0] += 1
+            if isinstance(st, ast.Try) and st.finalbody and not any(isinstance(n, (ast.Return, ast.Break, ast.Continue)) for b in st.body + st.orelse + [x for h in st.handlers for x in h.body] for n in ast.walk(b)):
+                # try: A finally: F   (no jump out of A)   ==   try: A  except BaseException: F; raise   followed by F
+                fin = st.finalbody
+                inner = ast.Try(body=st.body, handlers=st.handlers, orelse=st.orelse, finalbody=[]) if st.handlers else None
+                body = [ast.copy_location(inner, st)] if inner is not None else st.body
+                outer = ast.copy_location(ast.Try(body=body, handlers=[ast.ExceptHandler(type=ast.Name(id="BaseException", ctx=ast.Load()), name=None, body=[copy.deepcopy(x) for x in fin] + [ast.Raise(exc=None, cause=None)])], orelse=[], finalbody=[]), st)
+                out.append(outer)
+                out.extend(fin)
+                count[0] += 1
+                continue
+            if isinstance(st, ast.If) and any(isinstance(n, ast.NamedExpr) for n in ast.walk(st.test)):
+                pre = hoist_walrus(st)
+                if pre:
+                    count[0] += 1
+                    out.extend(ast.copy_location(x, st) for x in pre)
+            out.append(st)
+        return out
+    fn.body = block(fn.body)
+    if count[0]:
+        ast.fix_missing_locations(fn)
+    return count[0]
+
+
 def split_assignments(fn: ast.AST) -> int:
     """`a, b = x, y` -> `a = x; b = y` (when no right-hand side reads a left-hand name) and `a = b = v` -> `a = v; b = v`
     (v a constant / conditional of constants): the same stores, one target each."""
@@ -1173,6 +1293,8 @@ def normalize(project) -> List[str]:
     except OSError:
         return []
     renamed = recover_renamed_anchors(project)
+    for fi in project.funcs.values():
+        desugar(fi.node)
     inl = Inliner(project, base_funcs, base_consts)
     inl.log += renamed
     if not inl.new_funcs and not inl.new_consts:
@@ -1180,6 +1302,7 @@ def normalize(project) -> List[str]:
         pass
     inl.run()
     for fi in project.funcs.values():
+        desugar(fi.node)
         lift_conditionals(fi.node)
         split_assignments(fi.node)
         sink_common_append(fi.node)
